@@ -61,6 +61,14 @@ CHECKS.update({
          "stateless choice-tree (schedule) exploration of hash-map iteration orders with a deviation bound, on the real code via an order-controllable map hook"),
 })
 
+CHECKS.update({
+ "C06": ("model_checking",
+         "Under process isolation with a per-case hang watchdog (a panic, a dead worker, a stack overflow, a case running > 20 s are verdicts): ALL sequences of <=4 (thorough <=5) tokens over a 30-token ledger alphabet (bare and behind a valid transaction header), every prefix cut at every character and at every byte of every .ledger file in the repository and of a kitchen-sink document, all include graphs on <=3 files with <=2 include lines each (self-loops, cycles, diamonds, missing targets, globs matching the includer) in memory and the small ones on the real file system through the real binary, 19 nestable/repeatable constructs pumped to n in {1..10^5} through the real binary (balance, register, format, accounts), and all 1-2 posting transactions containing a zero x 4 zero-rate price databases through balance and both conversion strategies. Every run must terminate with a result or a non-empty diagnostic.",
+         "Assumes numbers within the representable decimal range (out-of-range literals must be rejected; arithmetic overflow beyond 28 digits is outside the property). The watchdog threshold is 20 s per case. Truncation corpus = the repository's own ledgers + one document using every documented construct.",
+         "DESIGN.md §2.3, §5 C06",
+         "bounded-exhaustive input enumeration under process isolation with hang/abort detection (stateless exploration; crash, abort and non-termination are verdicts)"),
+})
+
 PENDING_REASON = "check not yet implemented in this revision of /verif (planned, see DESIGN.md §5); not claimed until it exists"
 
 def main():
